@@ -35,6 +35,10 @@ def xop_terms(op):
     # owner::update_wallet_state: refresh of the active account, confirmation by kernel, scan
     # (the chains here are shorter than the 100-block look-back, so it covers the whole chain),
     # TTL expiry
+    if k == "cancel" and op.get("via_owner"):
+        # owner::cancel_tx = update_wallet_state, then tx::cancel_tx
+        upd = dict(op); upd["k"] = "update_state"
+        return xop_terms(upd) + ["XOp (%s)" % t for t in op_terms({"k": "cancel", "id": op["id"], "slate": op["slate"]})]
     if k == "update_state":
         v = op["view"]
         km = cL([cN(x[1]) for x in v["kernel_missing"] if x[0] == op["parent"]])
@@ -222,8 +226,11 @@ def oracle_c03(rows):
     fails = []
     for r in rows:
         prev = None
+        stranded = set()
         for idx, s in enumerate(r["steps"]):
             snap = s["snap"]
+            if s["op"]["k"] == "restore":
+                stranded = set()
             if s["op"]["k"] in ("lock", "finalize") and s["rc"] == [0] and prev is not None:
                 ins = s["extra"].get("ctx_inputs")
                 if s["op"]["k"] == "lock" and ins:
@@ -262,8 +269,14 @@ def oracle_c03(rows):
                 if o["status"] == 2 and (o["root"], o["tx"]) not in live:
                     tag = ""
                     ent = [t for t in snap["txs"] if (t["parent"], t["id"]) == (o["root"], o["tx"])]
-                    if s["op"]["k"] == "update_state" and ent and ent[0]["type"] == 4:
+                    okey = (o["acct"], o["child"], o["mmr"])
+                    has_scan = s["op"]["k"] in ("update_state", "scan") or \
+                        (s["op"]["k"] == "cancel" and s["op"].get("via_owner"))
+                    if (has_scan and ent and ent[0]["type"] == 4) or okey in stranded:
+                        # known finding: the scan cancelled the entry of an output it un-spent without
+                        # releasing the entry's other inputs; they stay stranded until released otherwise
                         tag = " [scan-cancel-without-release]"
+                        stranded.add(okey)
                     fails.append({"row": (r["seed"], r["wallet"]), "seed": r["seed"], "step": idx,
                                   "what": "Locked output %s not held by a live TxSent entry%s" % ((o["acct"], o["child"]), tag)})
             prev = snap
@@ -299,9 +312,29 @@ def oracle_c05(rows):
                         "keys_before": set(sv_map(prev))}
             if k == "restore":
                 reserved = {}   # a new database: log ids start again
-            if k in ("refresh", "init_send", "process_invoice", "update_state", "scan", "restore"):   # every operation that refreshes first
+            if k in ("refresh", "init_send", "process_invoice", "update_state", "scan", "restore") or \
+                    (k == "cancel" and s["op"].get("via_owner")):   # every operation that refreshes first
                 for v in reserved.values():
                     v["refreshed"] = True
+            if prev is not None and k == "cancel" and s["op"].get("via_owner"):
+                # owner::cancel_tx updates the wallet state first (refresh, kernels, scan, expiry), so
+                # the snapshot diff is not the cancel's alone: the frame is the model's business here
+                # (correspondence); the rollback of the cancelled reservations is still checked
+                if s["rc"] == [0]:
+                    ptx = {(t["parent"], t["id"]): t for t in prev["txs"]}
+                    after = sv_map(snap)
+                    for t in snap["txs"]:
+                        ck = (t["parent"], t["id"])
+                        if t["type"] == 4 and ck in ptx and ptx[ck]["type"] == 2 and ck in reserved:
+                            info = reserved.pop(ck)
+                            for a_, c_, m_, _v in info["ins"]:
+                                before = info["before"].get((a_, c_, m_))
+                                now = after.get((a_, c_, m_))
+                                if before is not None and not (now is not None and now[0] == before[0] and now[1] != 2):
+                                    fails.append(_fail(r, idx, "rollback: input %s was %s before the reservation, %s after "
+                                                               "the owner-API cancel" % ((a_, c_, m_), before, now)))
+                prev = snap
+                continue
             if prev is not None and k == "cancel":
                 if s["rc"] != [0]:
                     if canon(proj_from_snap(prev))[:4] != canon(proj_from_snap(snap))[:4]:
